@@ -149,6 +149,14 @@ def check(case, ctx):
     tree = _realize(case["tree"])
     sep = case["sep"]
     leaves = list(_leaves(tree))
+    # every separator-free string is a legitimate key name, wrapped in optional or not ('' and blanks included)
+    for path, _, opt in leaves:
+        if opt:
+            for name in (path[-1], sep.join(path)):
+                try:
+                    optional(name)
+                except Exception as e:  # noqa
+                    raise Violation("optional-raises", f"optional({name!r}) raised {e!r}")
     flat_items = []
     for path, payload, opt in leaves:
         fk = sep.join(path)
